@@ -100,10 +100,11 @@ impl Prop for C04 {
     }
 
     fn run(&self, case: &Case) -> Outcome {
-        match case.sources {
+        // the wall clock of the process is irrelevant to the set: run under one of three, picked by the case's size
+        crate::model::with_wall((case.ops.len() + case.sources) as u8, || match case.sources {
             1 => run_n::<1>(case),
             _ => run_n::<2>(case),
-        }
+        })
     }
 
     fn describe(&self, case: &Case) -> Value {
